@@ -75,7 +75,8 @@ def gen_hierarchy(rng, nmax, allow_latemark, rename=False):
                 nd = 1
         basef = any(hosts[b - 1]["hasf"] for b in bases)
         marked = basef and rng.random() < 0.7
-        latemark = allow_latemark and basef and not marked and nd >= 2 and rng.random() < 0.3
+        # (also when no base has the name: the mark then has nothing to extend, the definitions still form one overload)
+        latemark = allow_latemark and not marked and nd >= 2 and rng.random() < 0.3
         ts = None
         if rename and marked and mc and rng.random() < 0.6:
             # override everything inherited (same annotations, renamed parameter)
